@@ -217,6 +217,14 @@ def fenRank (p : Position) (y : Nat) : Nat → Nat → Nat → List Char → Opt
     | none, none => fenRank p y n (x + 1) (spaces + 1) acc
     | _, _ => none
 
+/-- the X-FEN castling letter of `get_fen`: K/Q/k/q for the outermost rook of the wing, the file letter otherwise. -/
+def castleLetterOut (rooks : BB) (file rank : Nat) (kingside : Bool) : Char :=
+  let outer :=
+    if kingside then !((List.range 8).any fun f => f > file && rooks.isSet (fromCoords f rank))
+    else !((List.range 8).any fun f => f < file && rooks.isSet (fromCoords f rank))
+  let c := if !outer then Char.ofNat ('a'.toNat + file) else if kingside then 'k' else 'q'
+  if rank == 0 then c.toUpper else c
+
 /-- `get_fen`. -/
 def getFen (p : Position) : Option (List Char) := do
   let np := if p.black then p.flip else p
@@ -231,8 +239,10 @@ def getFen (p : Position) : Option (List Char) := do
   let side := if p.black then " b".toList else " w".toList
   let castling :=
     if !np.usK && !np.usQ && !np.themK && !np.themQ then " -".toList
-    else ' ' :: ((if np.usK then ['K'] else []) ++ (if np.usQ then ['Q'] else []) ++
-                 (if np.themK then ['k'] else []) ++ (if np.themQ then ['q'] else []))
+    else ' ' :: ((if np.usK then [castleLetterOut (np.c0 &&& np.p3) np.cf0 0 true] else []) ++
+                 (if np.usQ then [castleLetterOut (np.c0 &&& np.p3) np.cf1 0 false] else []) ++
+                 (if np.themK then [castleLetterOut (np.c1 &&& np.p3) np.cf2 7 true] else []) ++
+                 (if np.themQ then [castleLetterOut (np.c1 &&& np.p3) np.cf3 7 false] else []))
   let ep := match np.ep with
     | some sq => ' ' :: sqName sq
     | none => " -".toList
